@@ -1,6 +1,9 @@
 use parking_lot::{Condvar, Mutex};
 
+#[cfg(not(may_verif))]
 use std::sync::atomic::{AtomicBool, Ordering};
+#[cfg(may_verif)]
+use crate::verif::atomic::{AtomicBool, Ordering};
 use std::sync::Arc;
 use std::time::Duration;
 
@@ -22,6 +25,12 @@ impl ThreadPark {
     }
 
     pub fn park_timeout(&self, dur: Option<Duration>) -> Result<(), ParkError> {
+        #[cfg(may_verif)]
+        if let Some(h) = crate::verif::hooks() {
+            if let Some(ok) = (h.park)(self as *const _ as usize, dur) {
+                return if ok { Ok(()) } else { Err(ParkError::Timeout) };
+            }
+        }
         let mut result = Ok(());
         let mut guard = self.lock.lock();
         while *guard == 0 && result.is_ok() {
@@ -41,6 +50,12 @@ impl ThreadPark {
     }
 
     pub fn unpark(&self) {
+        #[cfg(may_verif)]
+        if let Some(h) = crate::verif::hooks() {
+            if (h.unpark)(self as *const _ as usize) {
+                return;
+            }
+        }
         let mut guard = self.lock.lock();
         if *guard == 0 {
             *guard = 1;
@@ -77,6 +92,13 @@ impl Blocker {
 
     /// get the internal shared blocker
     pub fn current() -> Arc<Self> {
+        #[cfg(may_verif)]
+        {
+            let b = Arc::new(Self::new(false));
+            crate::verif::born("Blocker", Arc::as_ptr(&b));
+            return b;
+        }
+        #[cfg(not(may_verif))]
         Arc::new(Self::new(false))
     }
 
@@ -141,6 +163,17 @@ impl SyncBlocker {
     pub fn current() -> Arc<Self> {
         let blocker = Blocker::new(true);
 
+        #[cfg(may_verif)]
+        {
+            let b = Arc::new(SyncBlocker {
+                unparked: AtomicBool::new(false),
+                release: AtomicBool::new(false),
+                blocker,
+            });
+            crate::verif::born("SyncBlocker", Arc::as_ptr(&b));
+            return b;
+        }
+        #[cfg(not(may_verif))]
         Arc::new(SyncBlocker {
             unparked: AtomicBool::new(false),
             release: AtomicBool::new(false),
